@@ -14,6 +14,7 @@ from ..typing import AppWrapper, ConnectionState, LifespanState
 from ..utils import parse_socket_addr
 
 MAX_RECV = 2**16
+MAX_SEND = 2**16
 
 
 class TCPServer:
@@ -120,10 +121,14 @@ class TCPServer:
             async with self.send_lock:
                 try:
                     self.sending = True
-                    with trio.CancelScope() as cancel_scope:
-                        cancel_scope.shield = True
-                        await self.stream.send_all(event.data)
-                    self.sends += 1
+                    # In pieces so that a client that takes a large
+                    # write slowly is seen to be taking it
+                    data = memoryview(event.data)
+                    for start in range(0, max(len(data), 1), MAX_SEND):
+                        with trio.CancelScope() as cancel_scope:
+                            cancel_scope.shield = True
+                            await self.stream.send_all(data[start : start + MAX_SEND])
+                        self.sends += 1
                     self.sending = False
                 except (
                     trio.BrokenResourceError,
